@@ -165,6 +165,31 @@ func xzCases(c *hx.Ctx, seed int64) []xzCase {
 		cases = append(cases, xzCase{G: XZCfg{LC: 3, LP: 0, PB: 2, DictCap: 1 << 25, BufSize: 4096, Check: 1, Matcher: 0},
 			Hist: []string{"W", "W", "C"}, Fixed: [][]byte{data[:len(data)/3], data[len(data)/3:]}, Tag: "farrepeat"})
 	}
+	// (4e) distance ladder: one repeat in every distance slot up to the capacity (both sides of every
+	// slot boundary), hash-table finder with zero filler; a short one with text filler for the
+	// binary-tree finder; and runs cut at the maximum match length (operations directly after a match)
+	for k, e := range c.PickInts([]int{25}, []int{25, 26, 23}) {
+		n := 1<<uint(e) + 4096
+		data := MakeData("ladder", n, seed+int64(k))
+		cases = append(cases, xzCase{G: XZCfg{LC: 3, LP: 0, PB: 2, DictCap: 1 << uint(e), BufSize: 4096, Check: 1, Matcher: 0},
+			Hist: []string{"W", "W", "C"}, Fixed: [][]byte{data[:n/3+k], data[n/3+k:]}, Tag: "ladder"})
+	}
+	{
+		data := MakeData("laddertext", 70000, seed)
+		cases = append(cases, xzCase{G: XZCfg{LC: 3, LP: 0, PB: 2, DictCap: 65536, BufSize: 4096, Check: 4, Matcher: 1},
+			Hist: []string{"W", "C"}, Fixed: [][]byte{data}, Tag: "ladder"})
+		data = MakeData("ladder", 100000+4096, seed+1)
+		cases = append(cases, xzCase{G: XZCfg{LC: 3, LP: 0, PB: 2, DictCap: 100000, BufSize: 4096, Check: 4, Matcher: 0},
+			Hist: []string{"W", "C"}, Fixed: [][]byte{data}, Tag: "ladder"})
+	}
+	for k, p := range [][3]int{{3, 0, 2}, {0, 2, 0}, {1, 3, 2}, {4, 0, 4}, {0, 4, 0}, {2, 1, 3}} {
+		if !c.Thorough() && (k+int(seed))%2 == 0 && k > 0 {
+			continue
+		}
+		data := MakeData("maxlenruns", 30000, seed+int64(k))
+		cases = append(cases, xzCase{G: XZCfg{LC: p[0], LP: p[1], PB: p[2], DictCap: []int{4096, 65536}[k%2], BufSize: []int{4096, 273}[k/2%2], Check: 1, Matcher: k % 2},
+			Hist: []string{"W", "W", "C"}, Fixed: [][]byte{data[:9000+k], data[9000+k:]}, Tag: "maxlenruns"})
+	}
 	// (5) ring-wrap family: small dictionaries and look-ahead buffers, inputs several times
 	// longer than the encoder's ring (dictionary + look-ahead + 1) with matches at every
 	// distance around the wrap point; both match finders; written in odd-sized pieces
